@@ -1,5 +1,5 @@
 (* C09_Check.v — correspondence checker for C09 (update/delete without condition). *)
-From Verif Require Export Base Sem Where_Model C09_Keys.
+From Verif Require Export Base Sem Where_Model C09_Keys C02_Args.
 Open Scope Z_scope.
 
 Record case := mk_case {
@@ -14,7 +14,9 @@ Record case := mk_case {
   o_execs : Z;                  (* exec / query / prepare driver calls *)
   o_changed : bool;             (* any table cell changed *)
   o_other_err : bool;
-  o_tx : list Z                 (* transaction events seen by the driver: 0 begin, 1 commit, 2 rollback *)
+  o_tx : list Z;                (* transaction events seen by the driver: 0 begin, 1 commit, 2 rollback *)
+  c_args : list (list garg * list nat)  (* every map / struct / key unit of the chain: its Go values (C02_Args)
+                                        and the arities of the conditions its members stand for *)
 }.
 
 Definition pk_atom : nat := 45.
@@ -32,7 +34,12 @@ Definition model_missing (c : case) : option bool :=
     Some (missing_where (c_allow c) soft_on exprs2)
   end.
 
+(* BuildCondition's value loop on the Go values of every unit: exactly the unit's members *)
+Definition args_agree (l : list (list garg * list nat)) : bool :=
+  forallb (fun p => list_eqb Nat.eqb (bc_args (fst p)) (snd p)) l.
+
 Definition model_agrees (c : case) : bool :=
+  args_agree (c_args c) &&
   match model_missing c with
   | Some m => Bool.eqb m (o_missing c)
   | None => false
